@@ -4,7 +4,11 @@ Unit level: the real FixedIntervalSamplingEventHandler / FinalTimeEndOfRunEventH
 (`JF.Sampling.clock`, `endTime`, binary64 reading), bit for bit, for random intervals / tick counts; Fraction oracle for
 "one rounding per step". Run level: real runs (all shipped + generated sampling intervals, end times, chain times,
 first_event_time_zero both ways): oracle_c17 on the recorded writes; sample times of the runs vs the model clock; the
-number of samples vs the model's `samplesBeforeEnd`."""
+number of samples vs the model's `samplesBeforeEnd`. Dump/resume histories: runs with a dumping tagger (the shipped
+power_bounded_dump.ini with its own [Dumping] wiring, and dumping variants of other configurations) are dumped and every dump is
+resumed through the repository's resume.main(); the history "run up to the dump, then the resumed run" is judged by the same
+oracle (sample k at k*interval across dumps and resumes, nothing committed after the end time, run ends at the end time, sample
+count)."""
 import math
 from fractions import Fraction as Fr
 from harness import runs, runcommon
@@ -101,9 +105,71 @@ def run(ctx):
             tie = any(Fr(delta) * j == Fr(te) for j in range(0, fuel + 2))
             mexp.append(str(k) if not tie else None)
             minfo.append((meta_["ini"], meta_["seed"], "count"))
+    for tr in resume_histories(ctx):
+        stats = {}
+        runs.oracle_c17(tr, ctx.fail, stats)
+        runcommon.record_trace_stats(ctx, tr, stats)
+        ctx.count("resume-histories")
     rep = ctx.model("time", mreq) if mreq else []
     for line, e, r, inf in zip(mreq, mexp, rep, minfo):
         if e is not None and e != r:
             ctx.disagree("run.sample-times" if line.startswith("clock") else "run.sample-count",
                          {"ini": inf[0], "seed": inf[1], "leg": inf[2], "request": line}, e, r)
         ctx.count("run-model-comparisons")
+
+
+def resume_histories(ctx):
+    """histories 'run A up to its k-th dump, then the run resumed from that dump' as composite traces (legs and writes of A up
+    to and including the dumping event, then those of the resumed run), so that the sampling oracle judges the samples of the
+    whole history: a sample skipped or repeated around a dump, a sampling or end-of-run event lost in the dump, a resumed run that
+    goes on beyond the end time"""
+    import os, tempfile, shutil
+    from harness.props import c19
+    rng = ctx.rng
+    CFG = runs.CFG
+    work = tempfile.mkdtemp(prefix="jfdumps17_", dir=os.path.dirname(ctx.root))
+    out = []
+    try:
+        jobsA = []
+        bases = [(CFG + "coulomb_atoms/power_bounded_dump.ini", "Coulomb"), (CFG + "coulomb_atoms/power_bounded_dump.ini", "Coulomb"),
+                 (CFG + "coulomb_atoms/cell_veto.ini", None), (CFG + "dipoles/dipole_motion.ini", None)]
+        for rep in range(ctx.n(1, 4)):
+            for n, (ini, pool) in enumerate(bases):
+                sched = "heap_scheduler" if (n + rep) % 4 != 1 else "list_scheduler"
+                t_end = rng.choice([6.0, 9.5, 12.0, 20.0]) if "coulomb_atoms/power" in ini else rng.choice([2.5, 4.0])
+                delta = rng.choice([0.1, 0.37, 0.56789, 1.0])
+                dd = os.path.join(work, f"A{len(jobsA)}")
+                os.makedirs(dd)
+                ov = c19.merge({"FinalTimeEndOfRunEventHandler": {"end_of_run_time": t_end},
+                                "SingleProcessMediator": {"scheduler": sched},
+                                "FixedIntervalSamplingEventHandler": {"sampling_interval": delta}},
+                               c19.dumping_overrides(ctx.root, ini, round(t_end / rng.choice([1.8, 2.3, 3.1, 3.64, 4.4]), 4)))
+                ov = c19.merge(ov, {"DumpingOutputHandler": {"filename": f"dumpS{len(jobsA)}_{os.getpid()}.dat"}})
+                if pool:
+                    k = rng.randint(2, 6)
+                    ov = c19.merge(ov, {"RandomInputHandler": {"number_of_root_nodes": k}, pool: {"number_event_handlers": k}})
+                jobsA.append({"ini": ini, "seed": ctx.seed * 1000 + 800 + len(jobsA), "max_legs": 60000, "dump_dir": dd, "overrides": ov})
+        trsA = runs.run_jobs(ctx.root, jobsA)
+        jobsB = []
+        for ai, A in enumerate(trsA):
+            if not A["legs"] or not A.get("dumps"):
+                ctx.count("resume-histories:run-without-dump:" + str(A["end"])[:30])
+                continue
+            for dk in A["dumps"][:ctx.n(3, 6)]:
+                jobsB.append({"ini": A["meta"]["ini"], "resume": dk["file"], "pdb_standin": A["meta"].get("pdb_standin", False),
+                              "max_legs": max(4000, 3 * len(A["legs"])), "A": ai, "dump_leg": dk["leg"], "seed": A["meta"]["seed"]})
+        trsB = runs.run_jobs(ctx.root, jobsB) if jobsB else []
+        for B in trsB:
+            job = B["job"]
+            A = trsA[job["A"]]
+            cut = job["dump_leg"] + 1
+            if str(B["end"]).startswith(("exc", "build-exc", "harness-exc", "timeout")):
+                ctx.fail("C17:resume-raises", {"ini": A["meta"]["ini"], "seed": A["meta"]["seed"], "dump_leg": job["dump_leg"], "end": B["end"],
+                                               "exception": (B.get("exception") or "")[-800:]}, "resuming the dump raised")
+                continue
+            writes = [w for w in A["writes"] if w["leg"] < cut] + [{**w, "leg": w["leg"] + cut} for w in B["writes"]]
+            out.append({"meta": A["meta"], "initial": A["initial"], "legs": A["legs"][:cut] + B["legs"], "writes": writes,
+                        "end": B["end"], "job": {**A.get("job", {}), "resumed_at_leg": job["dump_leg"]}})
+    finally:
+        shutil.rmtree(work, ignore_errors=True)
+    return out
